@@ -674,6 +674,17 @@ func (r *RockDB) DeleteTableRange(dryrun bool, table string, start []byte, end [
 	if dryrun {
 		return nil
 	}
+	if start == nil && end == nil {
+		// the whole table: also the types the range builders above do not know. Their data keys
+		// carry the same [type][table] prefix; the bitmap meta keys have a prefix of their own.
+		for _, dt := range []byte{JSONType, BitmapType} {
+			rg := engine.CRange{Start: encodeDataTableStart(dt, []byte(table)), Limit: encodeDataTableEnd(dt, []byte(table))}
+			r.rockEng.DeleteFilesInRange(rg)
+			wb.DeleteRange(rg.Start, rg.Limit)
+		}
+		wb.DeleteRange(bitEncodeMetaKey(append([]byte(table), tableStartSep)),
+			bitEncodeMetaKey(append([]byte(table), tableStartSep+1)))
+	}
 	err := r.rockEng.Write(wb)
 	if err != nil {
 		dbLog.Infof("failed to delete table %v range: %v", table, err)
